@@ -21,7 +21,10 @@ pub fn analyze_rows(egraph: &EGraph, enode: &Expr) -> Rows {
             .map_or(f32::MAX, |x| x as f32)
     };
     let list_len = |id: &Id| egraph[*id].as_list().len();
-    match enode {
+    // An estimate stays finite: with large statistics the product of a few joins overflows f32 to
+    // infinity, and `inf * 0.0` (a filter that is constant false above them) is NaN — a plan
+    // whose cost is NaN cannot be compared and the extractor panicked.
+    let rows = match enode {
         // for plan nodes, the result represents estimated rows
         Values(v) => v.len() as f32,
         Scan([tid, _, _]) => {
@@ -93,7 +96,8 @@ pub fn analyze_rows(egraph: &EGraph, enode: &Expr) -> Rows {
         Exists(_) => 0.5,
 
         _ => 1.0,
-    }
+    };
+    rows.min(f32::MAX)
 }
 
 const DEFAULT_ROW_COUNT: u32 = 1000;
